@@ -3,6 +3,7 @@
 use super::common::*;
 use crate::core::*;
 use crate::engine::{self, Res};
+use super::tokens::{TokenSeqs, TOKENS};
 use crate::gen::{show, Strings};
 use crate::model::lex::{kinds, lex, OpSet};
 use std::time::{Duration, Instant};
@@ -14,6 +15,10 @@ fn sweeps(tier: Tier) -> Vec<Strings> {
         Tier::Quick => vec![Strings::new(FRAGMENTS, 4)],
         Tier::Thorough => vec![Strings::new(FRAGMENTS, 5), Strings::new(FRAGMENTS_SMALL, 6)],
     }
+}
+
+fn token_seqs(tier: Tier) -> TokenSeqs {
+    TokenSeqs { alphabet: TOKENS.to_vec(), max_len: tier.pick(5, 6) }
 }
 
 pub const SHAPES: &[&str] = &[
@@ -123,6 +128,14 @@ impl Prop for C01 {
                 what: format!("all concatenations of <= {} fragments of a {}-fragment alphabet", sw.max_len, sw.alphabet.len()),
             });
         }
+        let ts = token_seqs(tier);
+        stages.push(Stage {
+            name: "tokens".into(),
+            len: ts.len(),
+            chunk: (ts.len() / 64).max(2000),
+            timeout: Duration::from_secs(1200),
+            what: format!("all sequences of <= {} tokens over {} spellings (incl. an unterminated quote and a malformed number), space-separated", ts.max_len, ts.alphabet.len()),
+        });
         stages.push(Stage {
             name: "ladder".into(),
             len: ladder_cases(tier).len() as u64,
@@ -168,6 +181,17 @@ impl Prop for C01 {
                 if i % 100_003 == 7 {
                     out.sample(show(&s));
                 }
+            }
+            out.count("states", b - a);
+            out.count("transitions", b - a);
+            return;
+        }
+        if stage == sw.len() {
+            let ts = token_seqs(tier);
+            for i in a..b {
+                out.idx = Some(i);
+                let s = ts.spaced(i);
+                check_string(&s, "tokens", out);
             }
             out.count("states", b - a);
             out.count("transitions", b - a);
@@ -226,12 +250,15 @@ impl Prop for C01 {
         if stage < sw.len() {
             return show(&sw[stage].get(i));
         }
+        if stage == sw.len() {
+            return show(&token_seqs(tier).spaced(i));
+        }
         let (shape, n) = ladder_cases(tier)[i as usize];
         format!("{} n={}", shape, n)
     }
     fn crash_key(&self, tier: Tier, stage: usize, i: u64, how: &str) -> String {
         let sw = sweeps(tier);
-        if stage < sw.len() {
+        if stage <= sw.len() {
             return format!("{}:sweep-string", how);
         }
         let (shape, n) = ladder_cases(tier)[i as usize];
